@@ -33,6 +33,26 @@ func caseTree(c *core.Ctx, g *gen.Gen, maxDepth int) *gen.Node {
 	if c.Case < gen.SweepSize() {
 		return g.Sweep(c.Case)
 	}
+	// extreme but legal shapes (very deep, very wide, very long, the same value twice): every 24th
+	// PRNG-driven case (12th in the thorough tier), the five shapes in turn. They cost 10-100x an
+	// ordinary case, most of all in the monitors that evaluate Is over all pairs of layers, which
+	// therefore take a quarter as many.
+	every := 24
+	if c.Prop == "C02" || c.Prop == "C08" || c.Prop == "C04" {
+		every = 96
+	}
+	if c.Prop == "C08" {
+		every = 384 // all pairs of layers x all perturbations
+	}
+	if c.Tier == "thorough" {
+		every /= 2
+	}
+	if k := c.Case - gen.SweepSize(); k%every == every-1 {
+		t, shape := g.Extreme(k/every + int(c.Seed))
+		c.Cover("extreme-shapes", shape)
+		c.Count("extreme-shape-cases", 1)
+		return t
+	}
 	if c.Tier == "thorough" && c.Case%4 == 3 {
 		maxDepth += 3 // deeper trees in a quarter of the thorough cases
 	}
@@ -235,4 +255,40 @@ func arrowClass(a, b string) string {
 		return opErrArrowSig
 	}
 	return "operrboth-other"
+}
+
+
+// repeatLayer puts a second layer with the SAME kind and the SAME arguments as a wrapper that is
+// already in the chain on top of the tree, with 0..2 other annotation layers in between (the same
+// domain, hint, tag set, code, prefix ... applied twice: code that looks below itself for "what
+// the layers underneath already carry" only has something to find then).
+func repeatLayer(c *core.Ctx, g *gen.Gen, t *gen.Node) *gen.Node {
+	var cands []*gen.Node
+	for n := t; n != nil; {
+		if gen.Specs[n.Kind].Class == gen.Wrap && len(n.Kids) == 1 && len(n.Hidden) == 0 && !gen.Specs[n.Kind].NoRoot {
+			cands = append(cands, n)
+		}
+		if len(n.Kids) != 1 {
+			break
+		}
+		n = n.Kids[0]
+	}
+	if len(cands) == 0 {
+		// nothing to repeat yet: put a domain layer at the bottom of the new layers
+		t = g.Around("domain", t)
+		cands = []*gen.Node{t}
+	}
+	src := cands[c.R.Intn(len(cands))]
+	for i, d := 0, c.R.Intn(3); i < d; i++ {
+		t = g.Around(annotKinds[c.R.Intn(len(annotKinds))], t)
+	}
+	c.Cover("repeated-layer-kinds", src.Kind)
+	t = &gen.Node{Kind: src.Kind, S: append([]string(nil), src.S...), N: append([]int(nil), src.N...), Kids: []*gen.Node{t}}
+	// ... and usually a layer ABOVE the pair that composes its own text from the text of what is
+	// below it (a prefix, a barrier, an error argument): the doubly annotated node's own Error() may be
+	// right while what its parent reads through the formatter is not
+	if above := []string{"", "wrap", "wrapf", "withmsg", "handled", "handledmsg", "newfw", "newfe", "goerrorf", "pkgmsg", "joinbare"}[c.R.Intn(11)]; above != "" {
+		t = g.Around(above, t)
+	}
+	return t
 }
